@@ -21,7 +21,7 @@ for d in sorted(glob.glob('/verif/seeded/C*')):
     if sid=='C09b':
         note="Confirmed against the tree as it was before fix 83f6df2 (demonstration failed with the change). The fix (API handlers compute averages on a private Pegnetd) neutralises this change: on the repaired tree the demonstration passes with the change applied and no check reports it (C18 verifies that the handler writes only its own map). Kept for the record."
         rows[sid]=[('C09','not applicable on the repaired tree (neutralised by fix 83f6df2)',[]),('C18','passes (correctly: the change is harmless now)',[])]
-    meta={"id":sid,"property":sid[:3],"round":{"c":2,"d":3,"e":4,"f":5,"g":6,"h":6,"i":7,"j":7,"k":7}.get(sid[-1],1),
+    meta={"id":sid,"property":sid[:3],"round":{"c":2,"d":3,"e":4,"f":5,"g":6,"h":6,"i":7,"j":7,"k":8,"l":8,"m":8}.get(sid[-1],1),
       "summary":am.get('summary'),"needs_to_manifest":am.get('needs_to_manifest'),"files_changed":am.get('files_changed'),
       "patch":"patch.diff"+(" (rebased onto the fix commits; the sub-agent's original is patch.original.diff)" if os.path.exists(d+'/patch.original.diff') else ""),
       "demonstration":demo,
@@ -51,7 +51,7 @@ j=s.index('\n## 0. Summary table')
 k=s.index('### S.8 Tools',i,j) if '### S.8 Tools' in s[i:j] else s.rindex('---------------------------------------------------------------------------------------',i,j)
 new='''### S.7 Seeded changes — which check catches which
 
-126 changes: two per property written by sub-agents in round 1 (suffix a, b; scratch worktrees of the pinned commit, only the
+136 changes: two per property written by sub-agents in round 1 (suffix a, b; scratch worktrees of the pinned commit, only the
 property text given), twelve more in round 2 (suffix c, prompted to aim at helpers, glue code, SQL, error paths, activation
 boundaries) eight in round 3 (suffix d, prompted to write the change as a plausible refactoring, optimisation or
 "fix" a reviewer would accept) and twelve in round 4 (suffix e, for the properties round 3 left out, prompted for small
@@ -60,14 +60,15 @@ corner-case edits: an operator, a moved or dropped statement, an SQL predicate, 
 error handling, an era boundary, or the order and scope of operations, away from the most obvious line) and fourteen in
 round 6 (suffix g, h: each agent confined to one file or function of the code the proofs only ASSUME — the SQL leaves of
 node/pegnet, `GetPegNetRateAverages`, `recordPegnetRequests`, `multiFetch`, the JSON decoders) and twenty in round 7
-(suffix i, j: each agent confined to one VERIFIED function or group, asked for a clean-up that is almost behaviour-preserving).  Each was confirmed by me in a scratch worktree of the current HEAD (applies, builds, pinned suite passes,
-demonstration fails with the change and passes without); twelve patches (C02a, C10i, C13b, C13f, C14i, C15i, C18a, C18b, C18d, C18i, C20b, C20d) had to be rebased onto
+(suffix i, j: each agent confined to one VERIFIED function or group, asked for a clean-up that is almost behaviour-preserving)
+and ten in round 8 (suffix k, l, m: the verified functions with the thinnest contracts).  Each was confirmed by me in a scratch worktree of the current HEAD (applies, builds, pinned suite passes,
+demonstration fails with the change and passes without); thirteen patches (C02a, C10i, C13b, C13f, C14i, C15i, C18a, C18b, C18d, C18i, C19k, C20b, C20d) had to be rebased onto
 the fix commits (the original is kept beside them).  `seeded/<id>/meta.json` records what was run; `seeded/matrix_raw.log` is
 the raw output of `tools/seed_matrix.sh` (equivalent to `git -C /repo apply <patch>; ./check <P>; git -C /repo checkout -- .`,
 on a scratch copy so that several can run at once and the committed evidence is not overwritten).
 
 '''+open('/tmp/matrix.md').read()+'''
-All 123 live, confirmed changes are caught by the check of the property they break (C09b and C18f are no longer defects on the repaired tree: fix 83f6df2 neutralises them; C02g, a repeat of C02a, could not be confirmed on HEAD and is not counted, it is reported all the same).
+All 133 live, confirmed changes are caught by the check of the property they break (C09b and C18f are no longer defects on the repaired tree: fix 83f6df2 neutralises them; C02g, a repeat of C02a, could not be confirmed on HEAD and is not counted, it is reported all the same).
 How: **bounded stand-ins only** — C02a, C06b, C11b, C11c, C14a, C16b, C17a (SQL text or an assumed function), C09a, C09d, C09f
 (averages), C04e (`recordPegnetRequests`), C11e (previous winners query), C14e (snapshot rotation under faults), C01f, C06f, C10f, C11f, C16f, C17f (leaves, see below), C10a, C10c, C10e (`multiFetch`), C20a (JSON decoders); **proof obligations** (plus, for the arithmetic cores, a
 concrete failing input from the bounded counterexample search) — all others.  Round 2 first missed C03c (caught only by
@@ -112,6 +113,10 @@ empty rate map no longer triggers the 2.0.2 fallback), exposed both a gap in the
 snapshot is valued at, nor that a snapshot height takes the snapshot at all — and, while writing those clauses, a genuine
 defect of the unchanged code next to it (F4g: the error of the fallback query was ignored; fixed).  The new site clause
 `snapshot_valued_at_the_block_rates_or_the_last_recorded_ones` reports C14i.
+Round 8: nine of ten caught at the first run; the miss, C18k (`get-pegnet-rates` takes its default height from the in-memory
+counter, which the sync routine advances before the commit, instead of the committed `synced` row: the answer reflects a
+partially applied block), belongs to the second sentence of C18, which the frame conditions do not cover — the handler now
+has the postcondition `default_height_is_the_committed_one` (no call of `GetCurrentSync`).
 A change that moves code into a new helper without a contract is reported through the
 havoc of the uncontracted call (C11a, C15c, C16c, C18a, C18b): that is "needs contract", reported as a violation because
 obligations of the baseline stop discharging.
